@@ -29,7 +29,7 @@ MUST_REACH = ['bridgepoint/gen_xsd_schema.py:build_schema', 'bridgepoint/gen_xsd
 ANCHORS = MUST_REACH
 MIN_NONTRIVIAL = {'quick': 150, 'thorough': 150}
 RULE = ('the C14 diagram generator (classes inside and outside a component, attributes of core / enumeration / '
-        'user types incl. a user type over a user type, referential and derived attributes) with names '
+        'user types incl. a user type over a user type, referential and derived attributes, referentials that refer to a derived identifying attribute) with names '
         'containing XML-special characters, global and component-local enumerations and user types; rows in '
         'random order; then edits: rename / retype / add attribute, add / reorder enumerators, add a user '
         'type, move a class into or out of the component; plus the same kind of edits at the rows of '
@@ -164,7 +164,7 @@ def move(rng, d):
 
 
 def one_diagram(ctx, rng, tmpdir):
-    d = c14.random_diagram(rng)
+    d = c14.random_diagram(rng, derived_keys=True)
     d.enums.append(('Local_Enum', ['L1', 'L2'], 'comp'))
     if rng.random() < 0.7:
         special_names(rng, d)
